@@ -1,6 +1,6 @@
 (* C09 -- property theorems only. *)
 From Coq Require Import List Bool Arith.
-From WNTRV Require Import C09.Model C09.Proofs.
+From WNTRV Require Import C09.Model C09.Proofs C09.Graph C09.GraphProofs.
 Import ListNotations.
 
 (* the flagged set is exactly the junctions with no path of non-closed links to a tank or reservoir,
@@ -14,5 +14,30 @@ Theorem C09_connected_never_isolated : forall links nodes sources juncs I j,
   isolated_model links nodes sources juncs = Some I -> reach links sources j -> ~ In j I.
 Proof. exact connected_never_isolated. Qed.
 
+(* the simulator does not search the link list but a sparse matrix that it builds once and then maintains incrementally from the
+   control change tracker: for EVERY topology (parallel links in either direction) and EVERY history of status changes made by control
+   actions, after each update the entry of a node pair is non-zero exactly when one of the links joining the pair is not closed *)
+Theorem C09_matrix_built_right : forall links k, init links k = spec links k.
+Proof. exact init_spec. Qed.
+Theorem C09_matrix_maintained_right : forall links ops u v,
+  g_data (gstep (grun links ops) Update) (key u v) <> 0 <-> adj (g_links (grun links ops)) u v.
+Proof. exact matrix_is_adjacency. Qed.
+Theorem C09_one_update_right : forall links links' changed d,
+  same_keys links links' -> (forall k, d k = spec links' k) ->
+  (forall i l l', nth_error links i = Some l -> nth_error links' i = Some l' -> lopen l <> lopen l' -> In i changed) ->
+  forall k, update links changed d k = spec links k.
+Proof. exact update_spec. Qed.
+(* a history on the example: two parallel links J1 = J2 in opposite directions; closing one keeps the pair joined, closing both cuts it,
+   reopening one joins it again; the entry of the untouched pair (2, 3) stays 1 *)
+Example C09_matrix_history :
+  let links := [(0, 1, true); (1, 2, true); (2, 1, true); (2, 3, true)] in
+  map (fun ops => entries (g_links (grun links ops)) (g_data (grun links ops)))
+      [[Fire 1 false; Update]; [Fire 1 false; Update; Fire 2 false; Update]; [Fire 1 false; Fire 2 false; Update; Fire 1 true; Update]]
+  = [[1; 1; 1; 1]; [1; 0; 0; 1]; [1; 1; 1; 1]].
+Proof. vm_compute. reflexivity. Qed.
+
 Print Assumptions C09_isolated_iff.
+Print Assumptions C09_matrix_built_right.
+Print Assumptions C09_matrix_maintained_right.
+Print Assumptions C09_one_update_right.
 Print Assumptions C09_connected_never_isolated.
